@@ -22,6 +22,7 @@ for it in items:
         for i in range(1, 21):
             cid = "C%02d" % i
             out = sh(f"cd {ROOT} && ./check {cid} quick").stdout
+            assert "checker build failed" not in out and ("quick:" in out or "VIOLATION" in out), "check did not run: " + out[:300]
             if "VIOLATION property=" in out:
                 alarms[cid] = [l[:300] for l in out.splitlines() if re.search(r"\[C\d\d\.", l) and not l.startswith("KNOWN")][:6]
     finally:
